@@ -43,8 +43,7 @@ pub trait Readable: Sized {
 //@   sigrewrite `fn read<R: Reader>(reader: &mut R) -> Result<MerkleProof, ser::Error>` => `fn read_merkle_proof<R: Reader>(reader: &mut R) -> Result<MerkleProof, ser::Error>`
 //@   rewrite `Vec::with_capacity(` => `vec_with_capacity_checked(Ghost(reader.remaining()), `
 //@   rewrite `std::cmp::min(` => `min(` x?
-//@   rewrite `for _ in 0..path_len {` => `for i in 0..path_len`
-//@   rewrite `\t\t\tlet hash = Hash::read(reader)?;` => `\t\t{\n\t\t\tlet hash = Hash::read(reader)?;`
+//@   rewrite `for _ in 0..path_len {` => `for i in 0..path_len {`
 //@   ensures:
 //@+    r matches Ok(p) ==> 32 * p.path@.len() + 16 == old(reader).remaining() - final(reader).remaining(),
 //@   loop 1:
